@@ -566,6 +566,18 @@ func replay(in *core.Lines, args []string, seed int64, sum *core.Summary) error 
 			replayProd(&c, f, maps, seed, sum)
 		case "gen":
 			replayGen(&c, f, maps, seed, sum)
+		case "missing-clique":
+			if err := replayMissingClique(line, f, seed, sum); err != nil {
+				return fmt.Errorf("line %d: %v", in.N, err)
+			}
+		case "missing-cycle":
+			if err := replayMissingCycle(line, f, seed, sum); err != nil {
+				return fmt.Errorf("line %d: %v", in.N, err)
+			}
+		case "witness":
+			if err := replayWitness(line, f, seed, sum); err != nil {
+				return fmt.Errorf("line %d: %v", in.N, err)
+			}
 		default:
 			return fmt.Errorf("line %d: unknown case kind %q", in.N, c.K)
 		}
